@@ -525,6 +525,110 @@ pub(crate) mod verif_c14 {
     }
     d_enum_variant!(d_enum_unit, DEnum::A);
     d_enum_variant!(d_enum_newtype, DEnum::B(kani::any()));
-    // tuple / struct variants: CBMC does not resolve the &'static schema references of the derive output here and unwinds the
-    // recursive checker over every kind (no verdict within 15 min, measured) -> not covered, stated in DESIGN.md.
+    // tuple / struct variants: the recursive checker is intractable for CBMC here (it does not resolve the &'static schema
+    // references of the derive output and unwinds `conforms` over every kind at every level - no verdict in 15 min, measured).
+    // They are checked with a NON-recursive one-level checker: variant index / name / form / arity / field names and order,
+    // and each payload item against a LEAF schema.
+    fn leaf_ok(s: &DataModelType, e: Ev) -> bool {
+        match s {
+            DataModelType::Bool => e == Ev::Bool,
+            DataModelType::I8 => e == Ev::I8,
+            DataModelType::U8 => e == Ev::U8,
+            DataModelType::I16 => e == Ev::I16,
+            DataModelType::I32 => e == Ev::I32,
+            DataModelType::I64 => e == Ev::I64,
+            DataModelType::U16 => e == Ev::U16,
+            DataModelType::U32 => e == Ev::U32,
+            DataModelType::U64 => e == Ev::U64,
+            DataModelType::F32 => e == Ev::F32,
+            DataModelType::F64 => e == Ev::F64,
+            DataModelType::Char => e == Ev::Char,
+            DataModelType::String => e == Ev::Str,
+            _ => false,
+        }
+    }
+    /// events of ONE enum value whose payload items are leaves, against an Enum schema (no recursion)
+    fn enum_flat_ok(s: &DataModelType, l: &Log) -> bool {
+        let variants = match s {
+            DataModelType::Enum { name: _, variants } => *variants,
+            _ => return false,
+        };
+        if l.n == 0 {
+            return false;
+        }
+        let e = l.ev[0];
+        let (idx, vname) = match e {
+            Ev::UnitVariant(i, v) | Ev::NewtypeVariant(i, v) => (i, v),
+            Ev::TupleVariant(i, v, _) | Ev::StructVariant(i, v, _) => (i, v),
+            _ => return false,
+        };
+        if idx as usize >= variants.len() {
+            return false;
+        }
+        let var: &Variant = variants[idx as usize];
+        if !str_eq(var.name, vname) {
+            return false;
+        }
+        match (&var.data, e) {
+            (Data::Unit, Ev::UnitVariant(..)) => l.n == 1,
+            (Data::Newtype(t), Ev::NewtypeVariant(..)) => l.n == 2 && leaf_ok(t, l.ev[1]),
+            (Data::Tuple(ts), Ev::TupleVariant(_, _, n)) => {
+                if n != ts.len() || l.n != n + 2 || l.ev[n + 1] != Ev::TupleVariantEnd {
+                    return false;
+                }
+                let mut i = 0;
+                while i < ts.len() {
+                    if !leaf_ok(ts[i], l.ev[1 + i]) {
+                        return false;
+                    }
+                    i += 1;
+                }
+                true
+            }
+            (Data::Struct(fs), Ev::StructVariant(_, _, n)) => {
+                if n != fs.len() || l.n != 2 * n + 2 || l.ev[2 * n + 1] != Ev::StructVariantEnd {
+                    return false;
+                }
+                let mut i = 0;
+                while i < fs.len() {
+                    match l.ev[1 + 2 * i] {
+                        Ev::Field(k) if str_eq(k, fs[i].name) => {}
+                        _ => return false,
+                    }
+                    if !leaf_ok(fs[i].ty, l.ev[2 + 2 * i]) {
+                        return false;
+                    }
+                    i += 1;
+                }
+                true
+            }
+            _ => false,
+        }
+    }
+    #[derive(serde::Serialize, crate::Schema)]
+    #[postcard(crate = crate)]
+    enum DFlat {
+        Unit,
+        New(u16),
+        Tup(u8, i32),
+        One { a: bool },
+        Two { x: u8, yy: i64 },
+    }
+    macro_rules! d_flat_variant {
+        ($name:ident, $v:expr) => {
+            #[kani::proof]
+            #[kani::unwind(6)]
+            fn $name() {
+                let v = $v;
+                let mut log = Log::new();
+                v.serialize(Rec(&mut log)).unwrap();
+                assert!(enum_flat_ok(DFlat::SCHEMA, &log), "SPEC: the enum value's data-model items do not conform to the derived schema (variant form / index / name / arity / field names / leaf kinds)");
+            }
+        };
+    }
+    d_flat_variant!(d_flat_unit, DFlat::Unit);
+    d_flat_variant!(d_flat_newtype, DFlat::New(kani::any()));
+    d_flat_variant!(d_flat_tuple, DFlat::Tup(kani::any(), kani::any()));
+    d_flat_variant!(d_flat_struct1, DFlat::One { a: kani::any() });
+    d_flat_variant!(d_flat_struct2, DFlat::Two { x: kani::any(), yy: kani::any() });
 }
